@@ -90,7 +90,9 @@ def refresh_window(ctx, repo, T):
     n_chk = 0
     for m, call in sites:
         names = {ast.unparse(x.value) for x in ast.walk(call) if isinstance(x, ast.Attribute) and x.attr in ("begin", "end")}
-        for (b, e), mods in sorted(windows.items()):
+        for (b, e), mods in sorted(windows.items(), key=lambda kv: (str(type(kv[0][0])), str(kv[0]))):
+            if not (isinstance(b, int) and isinstance(e, int)):
+                continue          # a log table without a literal window is R5's / R7's finding
             got = []
             interp = Interp(repo)
 
